@@ -103,14 +103,17 @@ structure Lexer where
 
 namespace Lexer
 
-def panic (L : Lexer) (msg : String) : Lexer :=
-  match L.panicked with
-  | some _ => L
-  | none => { L with panicked := some msg }
+/-- record an assertion outcome in the ghost field: the first failure wins -/
+def chk (dbg : Bool) (p : Option String) (cond : Bool) (msg : String) : Option String :=
+  match p with
+  | some m => some m
+  | none => if dbg && !cond then some msg else none
 
-/-- `debug_assert!(cond, msg)` -/
+def panic (L : Lexer) (msg : String) : Lexer := { L with panicked := chk true L.panicked false msg }
+
+/-- `debug_assert!(cond, msg)`: touches nothing but the ghost field `panicked` -/
 def dassert (cfg : Cfg) (L : Lexer) (cond : Bool) (msg : String) : Lexer :=
-  if cfg.debug && !cond then L.panic msg else L
+  { L with panicked := chk cfg.debug L.panicked cond msg }
 
 def curByte (L : Lexer) : Nat := L.srcLen - L.cur.remBytes
 def curChar (L : Lexer) : Nat := L.cur.charOff
@@ -120,27 +123,29 @@ def litsLen (L : Lexer) : Nat := utf8Len L.litsR
 
 /-- `WorkTokenizedBuffer::add_line` (with its debug assertion). Returns the new line index. -/
 def bufAddLine (cfg : Cfg) (L : Lexer) (byte start : Nat) : Nat × Lexer :=
-  let L := L.dassert cfg (byte ≤ L.srcLen) "Line byte offset out of bounds"
-  (L.linesR.length, { L with linesR := ⟨byte, start⟩ :: L.linesR })
+  (L.linesR.length,
+   { L with linesR := ⟨byte, start⟩ :: L.linesR,
+            panicked := chk cfg.debug L.panicked (byte ≤ L.srcLen) "Line byte offset out of bounds" })
 
 /-- Byte offset of line `i` (zero-based) in the newest-first list. -/
 def lineAt? (L : Lexer) (i : Nat) : Option LineInfo :=
   if i < L.linesR.length then L.linesR[L.linesR.length - 1 - i]? else none
 
+/-- the debug assertions of `add_token`, in order -/
+def tokChecks (cfg : Cfg) (L : Lexer) (t : TokInfo) : Option String :=
+  let d := cfg.debug
+  let p := chk d L.panicked (t.start ≤ L.srcLen) "Token char offset out of bounds"
+  let p := chk d p (match L.toksR with | last :: _ => t.byte ≥ last.byte | [] => true)
+              "Token byte offset before previous token byte offset"
+  let p := chk d p (t.line ≤ L.linesR.length) "Line index out of bounds"
+  match L.lineAt? t.line with
+  | some li => chk d p (t.byte ≥ li.byte) "Token byte offset before line byte offset"
+  | none => chk d p false "index out of bounds"
+
 /-- `WorkTokenizedBuffer::add_token`. The `assert!(len != u32::MAX)` is outside the model
 (needs 2^32-1 tokens). The nightly `push_within_capacity` path pushes the same element. -/
 def bufAddToken (cfg : Cfg) (L : Lexer) (t : TokInfo) : Lexer :=
-  let L := L.dassert cfg (t.start ≤ L.srcLen) "Token char offset out of bounds"
-  let L := match L.toksR with
-    | last :: _ => L.dassert cfg (t.byte ≥ last.byte) "Token byte offset before previous token byte offset"
-    | [] => L
-  let L := L.dassert cfg (t.line ≤ L.linesR.length) "Line index out of bounds"
-  let L := if cfg.debug then
-      match L.lineAt? t.line with
-      | some li => L.dassert cfg (t.byte ≥ li.byte) "Token byte offset before line byte offset"
-      | none => L.panic "index out of bounds"
-    else L
-  { L with toksR := t :: L.toksR }
+  { L with toksR := t :: L.toksR, panicked := tokChecks cfg L t }
 
 /-- `add_line` of `Lexer`. -/
 def addLine (cfg : Cfg) (L : Lexer) : Nat × Lexer := L.bufAddLine cfg L.curByte L.curChar
@@ -282,20 +287,24 @@ def pendingTextFrom (L : Lexer) (a b : Nat) (err : ErrorKind) : List Char × Lex
 def pendingText (L : Lexer) : List Char × Lexer :=
   L.pendingTextFrom L.tok.byte L.curByte .InternalErrorNoTokenText
 
-/-- `Lexer::new` (after the `FileTooLarge` test) -/
+/-- `cursor.eat_char(BOM)` -/
+def skipBom (c : Cursor) : Cursor :=
+  match c.rest with
+  | ch :: _ => if ch = BOM then c.advance.2 else c
+  | [] => c
+
+/-- `Lexer::new` (after the `FileTooLarge` test). `cur_token_start = u32::from(eat_char(BOM))`
+equals the cursor's char offset after the optional BOM (it starts at 0). -/
 def new (cfg : Cfg) (s : List Char) : Lexer :=
+  let cur := skipBom (Cursor.new s)
   let srcLen := utf8Len s
-  let cur := Cursor.new s
-  let (bom, cur) := match cur.peek with
-    | some c => if c = BOM then (1, cur.advance.2) else (0, cur)
-    | none => (0, cur)
   let byte := srcLen - cur.remBytes
+  let start := cur.charOff
   let L : Lexer := {
     src := s, srcLen := srcLen, linesR := [], toksR := [], litsR := [], cur := cur,
-    tok := ⟨byte, bom, 0⟩, modesR := [.default], errsR := [], cp := none, nesting := 0,
+    tok := ⟨byte, start, 0⟩, modesR := [.default], errsR := [], cp := none, nesting := 0,
     pendingR := [false], lastState := (srcLen, [.default]) }
-  let (ln, L) := L.bufAddLine cfg byte bom
-  { L with tok := ⟨byte, bom, ln⟩ }
+  (L.bufAddLine cfg byte start).2
 
 end Lexer
 end SasLexer
